@@ -133,7 +133,7 @@ def _simple(col, fn, assume, inputs, goals_fn, replay, descr, timeout_ms=60000, 
     pins = pins or _auto_pins(inputs)
 
     def on_ok(pr):
-        runner.check_obligations(col, pr.ctx, goals_fn(pr.out), inputs, replay, descr=descr, timeout_ms=timeout_ms)
+        runner.check_obligations(col, pr.ctx, lambda: goals_fn(pr.out), inputs, replay, descr=descr, timeout_ms=timeout_ms)
     runner.explore_case(col, fn, assume, on_ok, on_exc, timeout_ms=timeout_ms, pins=pins)
 
 
@@ -390,7 +390,7 @@ def case_angle_zero_iff_equal(case, col):
         return bool(bad), "; ".join(bad) or "ok"
 
     def on_ok(pr):
-        ok = runner.check_obligations(col, pr.ctx, goals(pr.out), inputs, replay, descr="angle zero iff equal", timeout_ms=60000)
+        ok = runner.check_obligations(col, pr.ctx, lambda: goals(pr.out), inputs, replay, descr="angle zero iff equal", timeout_ms=60000)
         if not ok:
             return
         # chained lemma over fresh c (= (tr-1)/2) and d_ij (= A_ij - B_ij): the Frobenius identity just
